@@ -31,7 +31,8 @@ func init() {
 		Run:  c17Ctor})
 	register(&Rule{ID: "C17.hostfree", Floor: 150,
 		Text: "outside vfs_ostype_off.go (the untagged host pass-through), osfs/osidm and the host detection itself, no function of the emulation refers to a host-dependent path facility (path/filepath functions or Separator, os.PathSeparator, os.IsPathSeparator, runtime.GOOS, os.Getwd/TempDir); host-independent sentinel values (SkipDir, SkipAll, ErrBadPattern) are allowed",
-		Also: []string{"C13", "C10"},
+		Also: []string{"C13", "C10", "C09", "C12"},
+		AlsoOnly: map[string][]string{"C09": {"rofs."}, "C12": {"failfs."}}, AlsoFloor: map[string]int{"C09": 20, "C12": 20},
 		Run:  c17HostFree})
 }
 
@@ -524,7 +525,12 @@ var hostDependent = map[string]map[string]bool{
 		"VolumeName": true, "Walk": true, "WalkDir": true, "Separator": true, "ListSeparator": true, "Localize": true},
 	"os":      {"PathSeparator": true, "PathListSeparator": true, "IsPathSeparator": true, "Getwd": true, "TempDir": true, "DevNull": true},
 	"runtime": {"GOOS": true},
+	modPath:   {"CurrentOSType": true},
 }
+
+// hostTypedByDesign: declarations that may ask for the host's OS type: the default of a request that names none, the
+// refusal of another type in the untagged build, the identity managers that stand for the host.
+var hostTypedByDesign = map[string]bool{"avfs.(*OSTypeFn).SetOSType": true, "avfs.(*DummyIdm).OSType": true, "memidm.New": true, "memidm.NewWithOptions": true}
 
 // usedOnlyByHostDetection: d declares an unexported function of package avfs whose every reference in the module lies
 // inside the declaration of currentOSType or CurrentOSType (the one place that is allowed to look at the host).
@@ -596,7 +602,7 @@ func c17HostFree(rc *RuleCtx) {
 					if id.Pos() < start || id.Pos() >= end || obj.Pkg() == nil {
 						continue
 					}
-					if hostDependent[obj.Pkg().Path()][obj.Name()] {
+					if hostDependent[obj.Pkg().Path()][obj.Name()] && !(obj.Name() == "CurrentOSType" && hostTypedByDesign[pk+"."+name]) {
 						// package-level object only
 						if obj.Parent() == obj.Pkg().Scope() {
 							hits = append(hits, obj.Pkg().Name()+"."+obj.Name())
